@@ -127,11 +127,18 @@ def run(ctx, model=None):
     N = 300 if ctx.quick() else 8000
     for k in range(N):
         r = k % 6
-        g = gen.stopping_game(rng, extra_finals=0.25) if r == 0 else gen.layered_tie_game(rng) if r == 1 else \
+        g = gen.multi_final_game(rng) if k % 11 == 0 else gen.stopping_game(rng, extra_finals=0.25) if r == 0 else gen.layered_tie_game(rng) if r == 1 else \
             gen.free_game(rng) if r in (2, 3) else gen.slow_cycle_game(rng) if r == 4 else tie_game(rng)
         check_case(ctx, g, model)
         if ctx.time_left() < 0:
             return
+    import analysis as _an
+    _pool = []
+    _r2 = random.Random(ctx.seed + 4242)
+    while len(_pool) < 14:
+        _pool.append(gen.stopping_game(_r2, n_inner=_r2.randint(2, 5), dead_frac=_r2.choice([0.0, 0.6])))
+    for _k in range(4 if ctx.quick() else 40):
+        _an.batch_vs_alone(ctx, _r2.sample(_pool, _r2.randint(2, 5)), ['reachability_strategies'], 'run_games-strategies-equal-solo-run')
     for k in range(10 if ctx.quick() else 200):
         check_case(ctx, gen.stopping_game(rng, extra_finals=0.25), model, thr=10 ** (-rng.choice([2, 3, 4, 8])))
 
